@@ -1,53 +1,112 @@
-(** C02 proofs, part 4: unMakeMove (makeMove p m) = p, and the invariant over histories. *)
-From Coq Require Import ZArith NArith List Bool Lia Btauto.
+(** C02: decidable form of the invariant, concrete examples (non-vacuity) and the refuted
+    statements, on the tables regenerated from the engine. *)
+From Coq Require Import ZArith NArith List Bool Lia.
 From Texel Require Import Chess.Types Chess.Position Chess.PositionSpec Chess.PositionFacts
-  Chess.PositionProofs Chess.PositionProofs2 Chess.PositionProofs3.
+  Chess.PositionProofs Chess.PositionProofs2 Chess.PositionProofs3 Chess.PositionProofs4
+  Chess.PositionTheorems Chess.Fen Chess.PositionInst.
 Import ListNotations.
 Local Open Scope N_scope.
 
-(** what [moveOk] says, as propositions *)
-Lemma moveOk_facts p m : moveOk p m = true ->
-  let f := mfrom m in let t := mto m in
-  let pc := getPiece p f in let cap := getPiece p t in let wtm := whiteMove p in
-  let pawn := if wtm then WPAWN else BPAWN in
-  let king := if wtm then WKING else BKING in
-  let rook := if wtm then WROOK else BROOK in
-  f < 64 /\ t < 64 /\ f <> t /\ ownPiece wtm pc = true /\ ownPiece wtm cap = false /\
-  (mpromote m <> EMPTY -> pc = pawn /\ ownPiece wtm (mpromote m) = true) /\
-  (pc = pawn -> Z.of_N t = epSquare p ->
-     cap = EMPTY /\ mpromote m = EMPTY /\
-     (if wtm then 8 <= t /\ getPiece p (t - 8) = BPAWN /\ t <> f + 16
-      else t + 8 < 64 /\ getPiece p (t + 8) = WPAWN /\ t + 16 <> f)) /\
-  (pc = king -> t = f + 2 -> cap = EMPTY /\ f + 3 < 64 /\ getPiece p (f + 1) = EMPTY /\ getPiece p (f + 3) = rook) /\
-  (pc = king -> 2 <= f -> t = f - 2 -> cap = EMPTY /\ 4 <= f /\ getPiece p (f - 1) = EMPTY /\ getPiece p (f - 4) = rook).
+Lemma consistentb_sound zk p : consistentb zk p = true -> Consistent zk p.
 Proof.
-  unfold moveOk. cbv zeta. intro H.
-  apply andb_prop in H as [H Hcas]. apply andb_prop in H as [H Hep]. apply andb_prop in H as [H Hpro].
-  apply andb_prop in H as [H Hcapn]. apply andb_prop in H as [H Hown]. apply andb_prop in H as [H Hne].
-  apply andb_prop in H as [Hf Ht].
-  apply N.ltb_lt in Hf. apply N.ltb_lt in Ht. apply negb_true_iff in Hne. apply N.eqb_neq in Hne.
-  apply negb_true_iff in Hcapn.
-  split; [auto|]. split; [auto|]. split; [auto|]. split; [auto|]. split; [auto|].
-  split; [|split; [|split]].
-  - intro Hp. destruct (N.eqb_spec (mpromote m) EMPTY); [contradiction|].
-    apply andb_prop in Hpro as [Hpro _]. apply andb_prop in Hpro as [Hpro _]. apply andb_prop in Hpro as [Hp1 Hp2].
-    apply N.eqb_eq in Hp1. split; auto.
-  - intros Hpc Hte. rewrite Hpc, Hte, N.eqb_refl, Z.eqb_refl in Hep. cbn [andb] in Hep.
-    apply andb_prop in Hep as [Hep He3]. apply andb_prop in Hep as [He1 He2].
-    apply N.eqb_eq in He1. apply N.eqb_eq in He2. split; [auto|]. split; [auto|].
-    destruct (whiteMove p).
-    + apply andb_prop in He3 as [He3 He6]. apply andb_prop in He3 as [He4 He5].
-      apply N.leb_le in He4. apply N.eqb_eq in He5. apply negb_true_iff in He6. apply N.eqb_neq in He6. auto.
-    + apply andb_prop in He3 as [He3 He6]. apply andb_prop in He3 as [He4 He5].
-      apply N.ltb_lt in He4. apply N.eqb_eq in He5. apply negb_true_iff in He6. apply N.eqb_neq in He6. auto.
-  - intros Hpc Hte. rewrite Hpc, N.eqb_refl in Hcas. apply andb_prop in Hcas as [Hc _].
-    rewrite Hte, N.eqb_refl in Hc.
-    apply andb_prop in Hc as [Hc Hc4]. apply andb_prop in Hc as [Hc Hc3]. apply andb_prop in Hc as [Hc1 Hc2].
-    apply N.eqb_eq in Hc1. apply N.ltb_lt in Hc2. apply N.eqb_eq in Hc3. apply N.eqb_eq in Hc4. auto.
-  Show.
-  - intros Hpc Hf2 Hte. rewrite Hpc, N.eqb_refl in Hcas. apply andb_prop in Hcas as [_ Hc].
-    rewrite Hte, N.eqb_refl in Hc. replace (2 <=? mfrom m) with true in Hc by (symmetry; apply N.leb_le; auto).
-    cbn [andb] in Hc.
-    apply andb_prop in Hc as [Hc Hc4]. apply andb_prop in Hc as [Hc Hc3]. apply andb_prop in Hc as [Hc1 Hc2].
-    apply N.eqb_eq in Hc1. apply N.leb_le in Hc2. apply N.eqb_eq in Hc3. apply N.eqb_eq in Hc4. auto.
+  unfold consistentb. intro H.
+  apply andb_prop in H as [H Hbits]. apply andb_prop in H as [H Hpcs]. apply andb_prop in H as [Hl1 Hl2].
+  apply Nat.eqb_eq in Hl1. apply Nat.eqb_eq in Hl2.
+  unfold consistencyBits in Hbits. cbv zeta in Hbits. cbn [firstn forallb] in Hbits.
+  repeat (apply andb_prop in Hbits; let X := fresh "B" in destruct Hbits as [X Hbits]).
+  constructor; auto.
+  - apply Forall_forall. intros x Hx. rewrite forallb_forall in Hpcs. apply N.ltb_lt. auto.
+  - intros pc Hpc. rewrite forallb_forall in B. apply N.eqb_eq. apply B.
+    assert (E : pc = 1 \/ pc = 2 \/ pc = 3 \/ pc = 4 \/ pc = 5 \/ pc = 6 \/ pc = 7 \/ pc = 8 \/ pc = 9 \/
+                pc = 10 \/ pc = 11 \/ pc = 12) by lia.
+    simpl. intuition.
+  - apply N.eqb_eq; auto.
+  - apply N.eqb_eq; auto.
+  - rewrite N.lxor_0_r. apply N.eqb_eq; auto.
+  - apply N.eqb_eq; auto.
+  - apply Z.eqb_eq; auto.
+  - apply Z.eqb_eq; auto.
+  - apply Z.eqb_eq; auto.
+  - apply Z.eqb_eq; auto.
+  - apply Z.eqb_eq; auto.
 Qed.
+
+Lemma zk0_emptyKeysZero : emptyKeysZero zk0.
+Proof.
+  intro sq. unfold psKey. change (nth (N.to_nat EMPTY) (zk_ps zk0) []) with (repeat 0 64).
+  generalize (N.to_nat sq). intro n. do 65 (destruct n as [|n]; [reflexivity|]). reflexivity.
+Qed.
+
+(** strings *)
+Definition ascii (s : list nat) : list N := map N.of_nat s.
+(** "rnbqkbnr/pppppppp/8/8/8/8/PPPPPPPP/RNBQKBNR w KQkq - 0 1" *)
+Definition startFEN : list N :=
+  [114;110;98;113;107;98;110;114;47;112;112;112;112;112;112;112;112;47;56;47;56;47;56;47;56;47;
+   80;80;80;80;80;80;80;80;47;82;78;66;81;75;66;78;82;32;119;32;75;81;107;113;32;45;32;48;32;49].
+Definition posOf (fen : list N) : position :=
+  match readFEN zk0 fen with FenOk p => p | FenErr _ => emptyPosition zk0 end.
+Definition startPos : position := posOf startFEN.
+
+Lemma startPos_consistent : Consistent zk0 startPos.
+Proof. apply consistentb_sound. vm_compute. reflexivity. Qed.
+
+Definition e2e4 : move := mkMove 12 28 EMPTY.
+Definition g1f3 : move := mkMove 6 21 EMPTY.
+
+(** non-vacuity of C02_unmake_make *)
+Example unmake_make_example :
+  Consistent zk0 startPos /\ moveOk startPos e2e4 = true /\ moveOk startPos g1f3 = true /\
+  fst (makeMove zk0 startPos e2e4) <> startPos.
+Proof.
+  split; [exact startPos_consistent|]. split; [vm_compute; reflexivity|]. split; [vm_compute; reflexivity|].
+  intro H. apply (f_equal whiteMove) in H. vm_compute in H. discriminate.
+Qed.
+
+(** the dead EMPTY board is NOT restored (finding F10): after 1.e4 and take-back from a
+    position produced by the FEN reader, pieceTypeBB_[EMPTY] has bit e4 set *)
+Lemma unmake_make_emptyBB_refuted :
+  exists p m, Consistent zk0 p /\ moveOk p m = true /\
+    unMakeMove zk0 (fst (makeMove zk0 p m)) m (snd (makeMove zk0 p m)) <> p.
+Proof.
+  exists startPos, e2e4. split; [exact startPos_consistent|]. split; [vm_compute; reflexivity|].
+  intro H. apply (f_equal (fun q => ptBB q EMPTY)) in H. vm_compute in H. discriminate.
+Qed.
+
+(** six black queens (finding F1): "qqqqqq1k/8/8/8/8/8/8/7K w - - 0 1" *)
+Definition sixQueensFEN : list N :=
+  [113;113;113;113;113;113;49;107;47;56;47;56;47;56;47;56;47;56;47;56;47;55;75;32;119;32;45;32;45;32;48;32;49].
+Definition sixQueens : position := posOf sixQueensFEN.
+
+Lemma matid_overflow_refuted :
+  exists p, Consistent zk0 p /\ readFEN zk0 sixQueensFEN = FenOk p /\ fitsInt (matId p) = false /\
+            matId p = 2321154048%Z /\ wrapInt (matId p) = (-1973813248)%Z.
+Proof.
+  exists sixQueens. split; [apply consistentb_sound; vm_compute; reflexivity|].
+  split; [vm_compute; reflexivity|]. split; [vm_compute; reflexivity|]. split; vm_compute; reflexivity.
+Qed.
+
+(** serialisation keeps 8 bits of the half-move clock and 16 of the move number (finding F6) *)
+(** "4k3/8/8/8/8/8/8/4K3 w - - 300 1" and "... 0 70000" *)
+Definition kk300FEN : list N :=
+  [52;107;51;47;56;47;56;47;56;47;56;47;56;47;56;47;52;75;51;32;119;32;45;32;45;32;51;48;48;32;49].
+Definition kk70000FEN : list N :=
+  [52;107;51;47;56;47;56;47;56;47;56;47;56;47;56;47;52;75;51;32;119;32;45;32;45;32;48;32;55;48;48;48;48].
+
+Lemma serialize_roundtrip_refuted :
+  (exists p, readFEN zk0 kk300FEN = FenOk p /\ Consistent zk0 p /\ halfMoveClock p = 300%Z /\
+             halfMoveClock (deSerialize zk0 (serialize p)) = 44%Z) /\
+  (exists p, readFEN zk0 kk70000FEN = FenOk p /\ Consistent zk0 p /\ fullMoveCounter p = 70000%Z /\
+             fullMoveCounter (deSerialize zk0 (serialize p)) = 4464%Z).
+Proof.
+  split.
+  - exists (posOf kk300FEN). split; [vm_compute; reflexivity|]. split; [apply consistentb_sound; vm_compute; reflexivity|].
+    split; vm_compute; reflexivity.
+  - exists (posOf kk70000FEN). split; [vm_compute; reflexivity|]. split; [apply consistentb_sound; vm_compute; reflexivity|].
+    split; vm_compute; reflexivity.
+Qed.
+
+(** round trips on concrete positions (examples, not the general theorems) *)
+Example serialize_roundtrip_example : normEmpty (deSerialize zk0 (serialize startPos)) = normEmpty startPos.
+Proof. vm_compute. reflexivity. Qed.
+Example fen_roundtrip_example : toFEN startPos = startFEN /\ readFEN zk0 (toFEN startPos) = FenOk startPos.
+Proof. split; vm_compute; reflexivity. Qed.
